@@ -11,6 +11,11 @@
 //   - compares the COMPLETE observed state (all bank balances of all accounts, all supplies, all
 //     bank metadata entries, the whole tokenfactory store) with the model in exact big-int
 //     arithmetic: any movement the model does not explain is a violation.
+//
+// Second entry point (wasm.go): contract accounts emit the custom messages of the token factory's
+// wasm binding (create_denom / mint_tokens / burn_tokens / change_admin / set_metadata) through the
+// custom-message router app.go installs in front of the wasm keeper; same model, same oracle, the
+// contract address is the acting party.
 package c16
 
 import (
